@@ -36,6 +36,12 @@ def qualifier(name, fam, doc, act, error):
         offending = [r for r in doc['relations'] if multi & set(r['jobs'])]
         if offending and all(r['type'] == 'any' for r in offending):
             return 'any-relation'
+    if name.startswith('Unexplained_'):
+        if 'E0002' in act['codes'] and any({'req-exact', 'req-off'} <= {b['v'] for b in s['breaks']} for v in doc['vehicles'] for s in v['shifts']):
+            return 'mixed-required-break-time-kinds'
+        if 'E0000' in act['codes'] and doc['hasObjectives'] and doc['objectives'] and all(o['type'] == 'multi-objective' for o in doc['objectives']):
+            return 'only-multi-objective-entries'
+        return fam
     if name == 'RejectedClean':
         if act['codes'] == ['E0002'] and any({'req-exact', 'req-off'} <= {b['v'] for b in s['breaks']} for v in doc['vehicles'] for s in v['shifts']):
             return 'E0002-mixed-required-break-time-kinds'
@@ -76,6 +82,7 @@ def run(pid, tier):
     g = next(r for r in recs if r['act']['status'] == 'ok' and r['fam'] == 'ids')
     c = copy.deepcopy(g); c['act'] = {'status': 'err', 'codes': ['E0002']}; cans.append((c, 'RejectedClean'))
     c = copy.deepcopy(g); c['act'] = {'status': 'err', 'codes': []}; cans.append((c, 'RejectionWithoutCode'))
+    c = copy.deepcopy(b); c['act']['codes'] = ['E0000', 'E1103']; cans.append((c, 'Unexplained_E0000'))
     c = copy.deepcopy(g); c['act'] = {'status': 'undeserializable', 'codes': ['E0000']}; cans.append((c, 'Deserializable'))
     fj = os.path.join(d, 'judge.ndjson')
     common.write_ndjson(fj, recs + [c[0] for c in cans])
